@@ -2,4 +2,4 @@ Require Extraction.
 Require Import ExtrOcamlBasic.
 From LedgerV Require Import Base.Prelude Base.Round Base.ExtractHelpers Model.Timelog.
 Extraction "model_C20.ml" h_add h_mul h_div h_mod h_opp h_ltb h_eqb h_qred h_qmake h_qnum h_qden
-  journal run close total_for tl_class unreduce_walk print_scaled.
+  journal run close total_for tl_class unreduce_walk print_scaled held_of_rows.
